@@ -22,6 +22,19 @@ def run(prop: str, tier: str) -> int:
         ctx.analysed["env_units"] = len(pm.units) - len(pm.pkg_units())
         ctx.analysed["functions"] = sum(1 for f in pm.functions.values() if not f.unit.env)
         mod.check(pm, ctx)
+        from .model import DISCREPANCIES
+        seen = set()
+        for cls, fld, text in DISCREPANCIES:
+            if (cls, fld) in seen:
+                continue
+            seen.add((cls, fld))
+            ci = pm.cls(cls) if pm.has_cls(cls) else None
+            ctx.violation(f"{prop}-MODEL", f"keeps:{cls}.{fld}", f"{ci.unit.path.split('/flamapy/')[-1]}:{ci.node.lineno}" if ci else "",
+                          f"the model classes do not hold the model they are given (every abstract input of this check is "
+                          f"built through them): {text}")
+        if not DISCREPANCIES:
+            ctx.ok(f"{prop}-MODEL", "keeps", "", "constructors and add_relation keep the values they are given "
+                   "(every abstract input of this check was built through them and read back)", nontrivial=False)
         return ctx.finish()
     except AnalysisError as exc:
         return analysis_error_exit(prop, tier, exc)
